@@ -193,7 +193,9 @@ def extra(tier, rng, workdir):
         if p is None:
             red.append({"what": "correspondence", "suite": "oracle", "detail": "oracle rounds exhausted", "type": it["T"], "input": it["bs"].hex()})
             continue
-        if p["alloc"] > MAX_PREDICTED_ALLOC and it["kind"] == "mutation":
+        if (p["alloc"] > MAX_PREDICTED_ALLOC or p.get("unsafe")) and it["kind"] == "mutation":
+            # (unsafe: the mutation reaches a dependency decoder with a blob on which that decoder, run alone in a
+            # child process, was killed by the address-space limit - decoding it in-process would kill the harness)
             skipped_alloc += 1
             continue
         kept.append(it)
